@@ -330,7 +330,16 @@ func opaqueText(txt string) (string, error) {
 	i := strings.Index(res, "(set-logic ALL)\n")
 	if i >= 0 {
 		i += len("(set-logic ALL)\n")
-		res = res[:i] + opaquePrelude + strings.Join(litDecls, "\n") + "\n" + res[i:]
+		distinct := ""
+		if len(lits) > 0 {
+			names := []string{"ostr.empty"}
+			for _, n := range lits {
+				names = append(names, n)
+			}
+			sort.Strings(names)
+			distinct = "(assert (distinct " + strings.Join(names, " ") + "))\n"
+		}
+		res = res[:i] + opaquePrelude + strings.Join(litDecls, "\n") + "\n" + distinct + res[i:]
 	}
 	return res, nil
 }
